@@ -747,3 +747,39 @@ func init() {
 		return math.Float64frombits(c)
 	})
 }
+
+// ---- bytes.ToLower / bytes.ToUpper on ASCII input as a per-byte mapping (the
+// library code tests every byte for "has an upper/lower case letter", which
+// forks once per symbolic byte); input that may contain a byte >= 0x80 runs the
+// real code.
+func init() {
+	caseMap := func(lower bool) intrinsic {
+		return func(w *World, t *Thread, fr *frame, fn *ssa.Function, args []Value) Value {
+			in := args[0].([]Value)
+			conj := make([]*Term, 0, len(in))
+			bs := make([]*Term, len(in))
+			for i, v := range in {
+				bs[i] = v.(*Term)
+				conj = append(conj, w.tt.Cmp(OpULt, bs[i], w.tt.BV(8, 0x80)))
+			}
+			if !w.decideBool(w.tt.And(conj...), "bytes case mapping: ASCII input") {
+				w.skipIntrinsic = fn
+				defer func() { w.skipIntrinsic = nil }()
+				return w.call(t, fr, fn, args, nil)
+			}
+			out := make([]Value, len(in))
+			for i, b := range bs {
+				lo, hi, delta := uint64('A'), uint64('Z'), uint64(32)
+				if !lower {
+					lo, hi = 'a', 'z'
+					delta = 0x100 - 32
+				}
+				isL := w.tt.And(w.tt.Cmp(OpULe, w.tt.BV(8, lo), b), w.tt.Cmp(OpULe, b, w.tt.BV(8, hi)))
+				out[i] = w.tt.Ite(isL, w.tt.Bin(OpAdd, b, w.tt.BV(8, delta)), b)
+			}
+			return out
+		}
+	}
+	reg("bytes.ToLower", caseMap(true))
+	reg("bytes.ToUpper", caseMap(false))
+}
